@@ -472,6 +472,14 @@ func scenarios(c *hl.Ctx) []mc.Scenario {
 		scenarioSeg("segmented-reads(7): connect+createStream+other-traffic", []req{{"connect", 1}, {"createStream", 2}}, "status-before", []int{0, 1, 2}, true, 0, 7),
 		scenarioSeg("segmented-reads(1): 2-createStream", cs(2, 3), "", []int{0, 1, 2}, true, 0, 1),
 	)
+	// transaction ids are AMF0 numbers: ids that collide under a conversion to an integer type, outstanding together
+	l = append(l,
+		scenario("ids 1 and 1.5: connect+createStream(1.5)", []req{{"connect", 1}, {"createStream", 1.5}}, "", unb, true),
+		scenario("ids 2 and 2^32+2: 2-createStream", cs(2, 4294967298), "", unb, true),
+		scenario("ids 0.25, 0.5, 0.75: 3-createStream", cs(0.25, 0.5, 0.75), "", unb, true),
+		scenario("ids 2^53 and 2^53-1: 2-createStream", cs(9007199254740992, 9007199254740991), "", unb, true),
+		scenario("ids 1, 2^31, 2^63: 3-createStream", cs(1, 2147483648, 9223372036854775808), "", unb, true),
+	)
 	// transport write failures at every position of the write history
 	three := []req{{"connect", 1}, {"createStream", 2}, {"createStream", 3}}
 	for at := 0; at < 3; at++ {
@@ -561,7 +569,7 @@ func racePass(c *hl.Ctx) {
 }
 
 func run(c *hl.Ctx) {
-	c.Rule("E1: every interleaving of writer W (WritePacket per request) and reader R (ReadMessage+DecodeMessage per response) on one Protocol; scheduling points: transport Write (before it performs; the peer's answer becomes readable inside it), transport Read (enabled iff bytes are readable), Lock/Unlock of the transaction-table mutex (R1). Transport variants: unlimited, back-pressured (1/8/64 bytes in flight, the peer accepts the next request only when its output is delivered) and segmented delivery (reads of at most 1/3/7 bytes, so the reader is descheduled inside chunk headers and payloads). Transport write failures: the k-th Write either delivers its bytes and still reports an error or accepts nothing, for every k (responses to delivered requests must still be matched). Bounds iterated 0,1,2,3,unbounded; state-key pruning for the larger scenarios. state = distinct observable outcome (records + read sizes); transition = scheduling step.")
+	c.Rule("E1: every interleaving of writer W (WritePacket per request) and reader R (ReadMessage+DecodeMessage per response) on one Protocol; scheduling points: transport Write (before it performs; the peer's answer becomes readable inside it), transport Read (enabled iff bytes are readable), Lock/Unlock of the transaction-table mutex (R1). Transport variants: unlimited, back-pressured (1/8/64 bytes in flight, the peer accepts the next request only when its output is delivered) and segmented delivery (reads of at most 1/3/7 bytes, so the reader is descheduled inside chunk headers and payloads). Transaction ids next to each other that collide under integer conversion (1 and 1.5, 2 and 2^32+2, fractions, 2^31, 2^53, 2^63; ids <= 0 mean 'no response expected' and are not used). Transport write failures: the k-th Write either delivers its bytes and still reports an error or accepts nothing, for every k (responses to delivered requests must still be matched). Bounds iterated 0,1,2,3,unbounded; state-key pruning for the larger scenarios. state = distinct observable outcome (records + read sizes); transition = scheduling step.")
 	c.Assume("the peer answers in request order, each answer complete and readable before the request's Write returns", "unsynchronised accesses between scheduling points are judged by the separate free-running race-detector pass", "transaction table observed by reflection (skipped if the field path input.transactions disappears)")
 	if c.Mode() == "race" {
 		racePass(c)
